@@ -18,6 +18,7 @@ import cbor2
 from . import bp_gen as G
 
 _PENDING = []
+_ASB = []
 
 
 def _real_encode(spec):
@@ -79,7 +80,8 @@ def check_specs(chk, specs, label):
         chk.count('primary.crc_type=%d' % p['crc_type'])
         chk.count('primary.fragment=%s' % bool(p['flags'] & 1))
         chk.count('primary.admin=%s' % bool(p['flags'] & 2))
-        chk.count('blocks=%d' % len(spec['blocks']))
+        nb = len(spec['blocks'])
+        chk.count('blocks=%s' % (nb if nb < 8 else '8..22' if nb < 23 else '>=23 (>=24 items)'))
         for e in (p['dest'], p['src'], p['rpt']):
             chk.count('eid=%s' % e[0])
         for b in spec['blocks']:
@@ -148,6 +150,37 @@ def check_specs(chk, specs, label):
         norm = dec.get('norm')
         if norm is None or G.lean_observable(norm) != raw:
             chk.corr_break('B: model normalisation changes a well-formed bundle', replay)
+        # security block payloads (types 11/12): parsed view of the abstract security block and its
+        # re-encoding from the parsed form
+        for sb, rb in zip(spec['blocks'], back.blocks):
+            ex = sb.get('extra')
+            if ex and ex['kind'] == 'asb':
+                _ASB.append((replay, ex['asb'], sb['btsd']))
+                want = G.asb_observable(ex['asb'])
+                chk.count('asb.empty-result-array=%s' % any(len(r) == 0 for r in ex['asb']['results']))
+                pay = rb.payload
+                if pay is None or not hasattr(pay, 'getfieldval') or 'context_id' not in pay.fields:
+                    replay['asb_payload'] = repr(pay)[:200]
+                    chk.violation('C02:asb-not-decoded', 'security block payload of a well-formed bundle was not dissected', replay)
+                    continue
+                try:
+                    got = G.real_asb_observable(pay)
+                except Exception as e:  # noqa
+                    got = 'raised %s: %s' % (type(e).__name__, e)
+                if got != want:
+                    replay['asb_got'] = repr(got)
+                    replay['asb_want'] = repr(want)
+                    chk.violation('C02:asb-values', 'decoded security block (ASB) field values differ from the encoded '
+                                  'ones (e.g. an empty result array must decode to an empty list)', replay)
+                try:
+                    re_asb = bytes(pay)
+                except Exception as e:  # noqa
+                    re_asb = None
+                if re_asb != sb['btsd']:
+                    replay['asb_reencoded'] = re_asb.hex() if re_asb is not None else None
+                    replay['asb_btsd'] = sb['btsd'].hex()
+                    chk.violation('C02:asb-reencode', 're-encoding the decoded security block payload does not '
+                                  'reproduce its block-type-specific data', replay)
         # status report payloads: the real classes' view of the admin record
         for sb, rb in zip(spec['blocks'], back.blocks):
             ex = sb.get('extra')
@@ -160,6 +193,25 @@ def check_specs(chk, specs, label):
                     replay['status_want'] = repr(want)
                     chk.violation('C02:status-report-values', 'decoded status report differs from the encoded one', replay)
         chk.cov['traces_validated_against_impl'] += 1
+
+
+def check_asb_model(chk):
+    ''' Lean ASB codec (Model/BpAsb) vs the octets the real classes produced and the generated values '''
+    items = list(_ASB)
+    del _ASB[:]
+    if not items:
+        return
+    outs = chk.driver([x for _rp, asb, btsd in items for x in (
+        {'op': 'bp.asbenc', 'asb': G.asb_json(asb)}, {'op': 'bp.asbdec', 'hex': btsd.hex()})])
+    for i, (rp, asb, btsd) in enumerate(items):
+        enc, dec = outs[2 * i], outs[2 * i + 1]
+        chk.count('asb:model')
+        if not enc.get('wf'):
+            chk.corr_break('generator produced an ASB the model calls not well-formed', rp)
+        elif enc.get('hex') != btsd.hex():
+            chk.corr_break('ASB: Lean encoder differs from the real security block payload', dict(rp, lean_asb=enc.get('hex')))
+        if G.lean_asb_observable(dec.get('asb')) != G.asb_observable(asb):
+            chk.corr_break('ASB: Lean decoder differs from the generated values', dict(rp, lean_asb=dec.get('asb')))
 
 
 def _crc_widths_ok(spec):
@@ -345,13 +397,14 @@ def check_malformed(chk, cases):
         except Exception as e:  # noqa
             back = None
             real_ok = False
+            utf8_err = type(e).__name__ == 'CBORDecodeError' and 'text string' in str(e)
             chk.count('D:real-error=%s' % type(e).__name__)
         model_ok = o.get('raw') is not None
         cls = 'D:%s real=%s model=%s' % (kind, 'ok' if real_ok else 'error', 'ok' if model_ok else 'none')
         chk.count(cls)
         if model_ok and not real_ok:
             rawp = G.lean_observable(o['raw'])['primary']
-            if None in (rawp['dest'], rawp['src'], rawp['rpt']):
+            if None in (rawp['dest'], rawp['src'], rawp['rpt']) or utf8_err:
                 chk.count('D:outside-model text string that is not UTF-8')
                 continue
             if _admin_payload_opaque(o['raw'], orig_payload):
@@ -392,6 +445,7 @@ def check_pending_reenc(chk):
     ''' re-encodings predicted by the model for non-canonical but decodable inputs '''
     pend = list(_PENDING)
     del _PENDING[:]
+    del _ASB[:]
     if not pend:
         return
     outs = chk.driver([{'op': 'bp.encode', 'bundle': r['norm']} for r, _a in pend])
@@ -421,9 +475,22 @@ def directed_specs(rng):
                   'version': 7, 'src': ('ipn', [v, v]), 'dest': ('ipn', [v, 0, v])})
         for b in spec['blocks']:
             b['num'] = v if b['type'] != 1 else 1
-            if b['type'] not in (1, 6, 7, 10):
+            if b['type'] not in (1, 6, 7, 10, 11, 12):
                 b['type'] = v if v > 12 else 192
         specs.append(spec)
+    # security blocks whose targets have empty result arrays, alone and mixed
+    for k in range(8):
+        spec = G.gen_bundle(rng, 8 + k, crc_mode='update', nblocks=0)
+        for j, ty in enumerate([11, 12][:1 + k % 2]):
+            asb = G.gen_asb(rng, empty_results=(True if k < 4 else None))
+            if k == 0:
+                asb.update({'targets': [1], 'results': [[]]})
+            spec['blocks'].insert(0, {'type': ty, 'num': 2 + j, 'flags': 0, 'crc_type': k % 3, 'btsd': G.asb_cbor(asb),
+                                      'crc': None, 'extra': {'kind': 'asb', 'asb': asb, 'type': ty}})
+        specs.append(spec)
+    # number of top-level items around the CBOR head boundaries 23/24 and 255/256 (primary + n canonical blocks)
+    for n_ext in [21, 22, 23, 24, 30, 254, 255]:
+        specs.append(G.gen_bundle(rng, 3, crc_mode=rng.choice(['update', 'given']), nblocks=n_ext))
     for n in [0, 1, 22, 23, 24, 25, 254, 255, 256, 257, 65535, 65536]:
         spec = G.gen_bundle(rng, 4, crc_mode='update')
         spec['primary']['dest'] = ('dtn', '//' + 'h' * max(1, n - 3) + '/') if n >= 4 else ('dtn', '//h/')
@@ -523,6 +590,7 @@ def check_agent_tx(chk, specs):
 
 def run(chk):
     del _PENDING[:]
+    del _ASB[:]
     chk.cov['rule'] = ('type-directed generator of bundle specs: all 512 combinations of the defined primary flags '
                        '(cycled), all 16 block-flag combinations, dtn:/ipn:/dtn:none EIDs in structured form, CRC type '
                        'per block, fragment fields, extension blocks 6/7/10 via the real payload classes, unknown '
@@ -545,6 +613,7 @@ def run(chk):
     B = 400
     for k in range(0, len(specs), B):
         check_specs(chk, specs[k:k + B], 'AB')
+        check_asb_model(chk)
     check_rfc_stream(chk, specs)
     cases = []
     for i in range(n_mal):
@@ -560,6 +629,7 @@ def run(chk):
 def replay(chk, path):
     ''' Re-run one recorded failing input on the implementation. '''
     del _PENDING[:]
+    del _ASB[:]
     rec = json.load(open(path))
     rp = rec.get('replay', rec)
     R = G.real()
